@@ -190,8 +190,20 @@ def Qratio(z1, z2, nstop, dns1 = None, dns2 = None, eps1 = 1e-3, eps2 = 1e-16):
             ratio = 1./(i/z - d1[i-1])
         return ratio
 
+    # Next to a multiple of pi psi_0 = sin z vanishes: Q_0 then is (or is the
+    # reciprocal of) a rounding error that the first step below multiplies
+    # with another one. Q_1 has a closed form that has no such problem.
+    start = 1
+    if (nstop >= 1 and max(abs(b1), abs(b2)) < 100. and
+            min(abs(1. - exp(-2j*z1)), abs(1. - exp(-2j*z2))) < 0.1):
+        def psi_over_xi_1(z):
+            psi_1 = sin(z)/z - cos(z)
+            return psi_1 / (psi_1 - 1j*(cos(z)/z + sin(z)))
+        qns[1] = psi_over_xi_1(z1) / psi_over_xi_1(z2)
+        start = 2
+
     # Loop to do upwards recursion in eqn. 33
-    for i in arange(1, nstop+1):
+    for i in arange(start, nstop+1):
         qns[i] = qns[i-1]* ( (d3z1[i] + i/z1) * psi_ratio(d1z2, z2, i)
 	       		     )  / ((d3z2[i] + i/z2) * psi_ratio(d1z1, z1, i) )
     return qns
